@@ -1839,7 +1839,9 @@ impl<'a> Parser<'a> {
             s.error("Cannot use 'self' outside of a class.");
             return;
         }
-        if s.compiler().kind == FunctionKind::StaticMethod {
+        // The receiver is that of the enclosing method, however many functions lie in between: a
+        // static method has none (its slot 0 is called 'Self').
+        if s.receiver_name() == "Self" {
             s.error("Cannot use 'self' in a static method.");
             return;
         }
